@@ -167,17 +167,23 @@ def run_cc(exe, data=None, args=(), timeout=10, cwd=None):
     The limit is on the *CPU time* the process has used (a starved process on a loaded machine is not a hang); wall
     clock is capped at 40x the limit. On timeout the process gets SIGABRT first so that the sanitizer runtime prints
     where it was."""
-    # stdout is not observed here (a cyclic block list makes emitfunc print forever: never buffer it)
-    p = subprocess.Popen([exe] + list(args), stdin=subprocess.PIPE, stdout=subprocess.DEVNULL, stderr=subprocess.PIPE, env=base_env(), cwd=cwd)
+    # stdout is not observed here (a cyclic block list makes emitfunc print forever: never buffer it).
+    # stdin comes from an anonymous memory file, not a pipe: Popen.communicate() cannot resume feeding a pipe after a
+    # TimeoutExpired (the retry must not pass input again), which blocks the child forever on inputs > 64 KB.
+    fd = os.memfd_create("c19-input")
+    try:
+        os.write(fd, data if data is not None else b"") if data else None
+        os.lseek(fd, 0, os.SEEK_SET)
+        p = subprocess.Popen([exe] + list(args), stdin=fd, stdout=subprocess.DEVNULL, stderr=subprocess.PIPE, env=base_env(), cwd=cwd)
+    finally:
+        os.close(fd)
     t0 = time.time()
-    inp = data if data is not None else b""
     while True:
         try:
-            out, err = p.communicate(inp, timeout=1.0)
+            out, err = p.communicate(timeout=1.0)
             rc = p.returncode
             break
         except subprocess.TimeoutExpired:
-            inp = None
             if cpu_seconds(p.pid) < timeout and time.time() - t0 < 40 * timeout:
                 continue
             p.send_signal(signal.SIGABRT)
@@ -856,6 +862,15 @@ SEEDS = [
     ("keyword-macro-twice", b"#define T int\nT a; T b;\n", []),
     ("undef-during-args", b"#define f(x) x\nf(\n#undef f\n1)\n", ["-E"]),
     ("types-compatible-novoid", b"int v = __builtin_types_compatible_p(int, 1);\n", []),
+    # regression inputs of defects repaired by fix: commits in /repo (must stay quiet)
+    ("fixed-4ba409c-expandfunc-uaf", b"#define f(a) a\n#define t(a) a\nt(t(f)x)\n", ["-E"]),
+    ("fixed-f515711-duplicate-label", b"void f(void) { x: x: ; }\n", []),
+    ("fixed-c5b7a53-bitand-pointer", b"int x[1], y = 0 & x;\n", []),
+    ("fixed-060fc54-void-condition", b"int i; void p; int main(void) { if (i ? 1 : 0) p ? 1 : 0; }\n", []),
+    # still open
+    ("macro-name-last-in-argument", b"#define f()\n#define m(a) a\nm(f)\n", ["-E"]),
+    ("nul-in-string", b"char s[] = \"ab\x00\";\n", []),
+    ("backslash-nul-escape", b"char *s = \"\\\x00\";\n", []),
 ]
 
 
